@@ -104,6 +104,8 @@ PROPS = {
     "C07": {"families": ["rm"]},
     "C16": {"families": ["metric"]},
     "C09": {"custom": "funcheck"},
+    "C10": {"custom": "membercheck"},
+    "C17": {"custom": "funcheck"},
     "C19": {"custom": "funcheck"},
     "C18": {"custom": "funcheck"},
     "C20": {"custom": "funcheck"},
